@@ -184,3 +184,20 @@ Theorem call_error_codes : forall unspec code ops, is_call code = true ->
           forall e, check_new_insn unspec code ops = Err e -> e = E_wrong_type)).
 Proof. exact call_error_codes_lemma. Qed.
 Print Assumptions call_error_codes.
+
+(* Error codes of MIR_finish_func's per-instruction header checks: MIR_invalid_insn_error exactly
+   for a broken overflow-branch rule; MIR_vararg_func_error for use/phi, va_start outside a vararg
+   function, jret in a function with results, ret/jret mixing, and a ret whose operand count is
+   not the number of results (before fix C15-1 the last one crashed). *)
+Theorem header_error_codes : forall fc rp jp before ins e,
+  check_header fc rp jp before ins = Err e ->
+  (e = E_invalid_insn /\ ovf_branch_p (i_code ins) = true /\ call_code_p (i_code ins) = false
+   /\ match ovf_producer before with None => false | Some pc => ovf_cond (i_code ins) pc end = false)
+  \/ (e = E_vararg_func
+      /\ (code_is (i_code ins) PHI || code_is (i_code ins) USE
+          || (negb (f_vararg fc) && code_is (i_code ins) VA_START)
+          || (code_is (i_code ins) JRET && negb (length (f_res fc) =? 0))
+          || ((code_is (i_code ins) JRET && rp) || (code_is (i_code ins) RET && jp))
+          || (code_is (i_code ins) RET && negb (length (i_ops ins) =? length (f_res fc)))) = true).
+Proof. exact header_error_codes_lemma. Qed.
+Print Assumptions header_error_codes.
